@@ -823,6 +823,18 @@ func runFF(o *Opts) *Summary {
 				}
 			} else {
 				others := []*NNode{}
+				quick := o.Store == "badger" && t%4 == 0
+				if quick {
+					// the node is up to date when it restarts: it holds every block its
+					// peers hold
+					for round := 0; round < 3; round++ {
+						for _, nd := range all {
+							if nd != g && nd.State() == "Babbling" && g.State() == "Babbling" {
+								vn.Pull(g, nd, false)
+							}
+						}
+					}
+				}
 				for _, nd := range all {
 					if nd != g {
 						others = append(others, nd)
@@ -831,10 +843,9 @@ func runFF(o *Opts) *Summary {
 						}
 					}
 				}
-				if o.Store == "badger" && t%4 == 0 {
-					// a quick restart: the node is hardly behind, the anchor it is served
-					// is a block its database already holds
-					gossip(4, others)
+				if quick {
+					// a quick restart: the anchor it is served is a block its database
+					// already holds
 				} else {
 					gossip(o.Steps/3, others)
 				}
